@@ -23,6 +23,7 @@ CONSTANTS Chains,      \* set of chains (sequences of stage records) to enumerat
           MaxSubs,     \* how many times the SAME pipeline object is subscribed (C12: a re-subscription starts from fresh state)
           SrcBase,     \* markers of the context the SOURCE emits with: {"sub"} = derived from the subscription context (cold source);
                        \* {"hot"} = a context of the producer's own (hot source fed from elsewhere): what the operators attach must still arrive
+          NilErr,      \* BOOLEAN: the source may also end with Error(nil) (cause 0) - a legal terminal that must travel like any other error
           Faults       \* set of fault plans [stage, at, kind]; stage 0 = no fault, -1 = the source's subscribe function (C07)
 
 VARIABLES chain, sts, phase, srcSub, srcTorn, srcDone, unsub, closed, log, nitems, nillegal, h, fault, nsubs, prev
@@ -153,7 +154,7 @@ Unsub ==
   /\ UNCHANGED <<chain, phase, srcSub, srcDone, log, nitems, nillegal, fault, nsubs, prev>>
 
 NextNotif ==
-  {N(v, SrcBase \cup {ItemMark(nitems)}) : v \in Vals} \cup {E(1, SrcBase \cup {"t"}), C(SrcBase \cup {"t"})}
+  {N(v, SrcBase \cup {ItemMark(nitems)}) : v \in Vals} \cup {E(1, SrcBase \cup {"t"}), C(SrcBase \cup {"t"})} \cup (IF NilErr THEN {E(0, SrcBase \cup {"t"})} ELSE {})
 
 Next == Subscribe \/ Unsub \/ \E n \in NextNotif : Push(n)
 
